@@ -240,6 +240,51 @@ def paths_rule(ctx):
         s = " ".join(sir.expr_str(n) for n in sir.walk(arm["body"]) if n.get("k") == "if")
         ok = "update_path_tree.is_some()" in s
         obs.append(ob("C06.paths/ScopeRef", ok, where, "a scope reference is in-path whenever its scope has an update-path tree: %s" % ok))
+        # the same as a decision table: the arm is interpreted for every kind of scope variable x (tree present / absent); the
+        # reference must be in-path for every script scope and for every variable with a tree, whatever its l-value path is
+        try:
+            import absint as ai
+            F = ai.FREE
+            kinds = {"Invalid": ("E", "Invalid", ()), "Var/data": ("E", "Var", (("var_name", F), ("from_data_scope", True))),
+                     "Var/local": ("E", "Var", (("var_name", F), ("from_data_scope", False))), "Script": ("E", "Script", (("abs_path", F),)),
+                     "InlineScript": ("E", "InlineScript", (("path", F), ("mod_name", F)))}
+            wrong, und = [], []
+            for kn, kv in kinds.items():
+                for tree in (True, False):
+                    def hooks(it, e, st, kv=kv, tree=tree):
+                        if e.get("k") == "field" and e["name"] == "lvalue_path":
+                            return [(kv, st)]
+                        if e.get("k") == "mcall" and e["m"] in ("is_some", "is_none") and "update_path_tree" in sir.expr_str(e["recv"]):
+                            return [(tree if e["m"] == "is_some" else (not tree), st)]
+                        if e.get("k") == "field" and e["name"] == "update_path_tree":
+                            return [((("Some", F) if tree else "None"), st)]
+                        return None
+                    it = ai.Interp(hooks=hooks, idx=ctx.tc)
+                    env = {nm: F for nm in genf.param_names()}
+                    for nm, _p in sir.pat_bindings(_c):
+                        env[nm] = F
+                    try:
+                        outs = [o for o in it.run(arm["body"], env) if ("$error-exit",) not in o.events]
+                    except ai.TooManyPaths:
+                        outs = None
+                    vals = set()
+                    for o in (outs or []):
+                        v = o.value
+                        if o.kind != "val" or o.tainted or not (isinstance(v, tuple) and len(v) >= 2 and v[0] == "E" and v[1] in ("InPath", "NotInPath")):
+                            vals.add("?")
+                        else:
+                            vals.add(v[1])
+                    if not outs or "?" in vals:
+                        und.append(kn)
+                        continue
+                    want = "InPath" if (tree or kn in ("Script", "InlineScript")) else None
+                    if want and vals != {want}:
+                        wrong.append("%s scope variable %s a tree: %s" % (kn, "with" if tree else "without", sorted(vals)))
+            obs.append(ob("C06.paths/ScopeRef/table", None if (und and not wrong) else not wrong, where,
+                          "; ".join(wrong) if wrong else ("not decided for %s" % sorted(set(und)) if und else "in-path for the 5 kinds of scope variable whenever the scope has an update tree, and for script modules always"),
+                          witness=None if not wrong else "{{index}} in a keyed wx:for is not updated when items are inserted in front; {{item}} over a computed list goes stale"))
+        except Exception as ex:   # the table is an addition to the textual rule above: a form it cannot read is not an alarm
+            obs.append(ob("C06.paths/ScopeRef/table", None, where, "not decided (%s)" % type(ex).__name__))
     if "DataField" in table:
         arm, _c = table["DataField"][0]
         ok = any(n.get("k") == "call" and (sir.call_path(n) or "").endswith("PathSlice::Ident") for n in sir.walk(arm["body"]))
